@@ -51,6 +51,15 @@ func NewSignatureWithHashedData(
 	if err := hashType.Validate(); err != nil {
 		return nil, err
 	}
+	if hashType == hash.HashType_HashType_UNKNOWN {
+		return nil, errors.New("hash type missing")
+	}
+	// hashData must be a digest of hashType: the sign body is only unambiguous
+	// for digests of the prescribed length (a longer value could smuggle a
+	// separator, so the signature would verify under another context).
+	if len(hashData) != hashType.GetHashLen() {
+		return nil, errors.Errorf("hashed data length %d does not match hash type %s", len(hashData), hashType.String())
+	}
 
 	// prepend the encryption context and hash type
 	signBody := bytes.Join([][]byte{
